@@ -576,6 +576,28 @@ func (m c18) typeCopy(c *Ctx, t *TypeSpec) {
 				return
 			}
 		}
+		// a type that has already produced resources, then copied, the copy renamed and extended: the copy's New()
+		// makes resources of the COPY
+		{
+			bt := buildType(&soft)
+			_ = bt.New()
+			bc := bt.Copy()
+			bc.Name = "zz-copy"
+			_ = bc.AddAttr(jsonapi.Attr{Name: "zz-only-in-copy", Type: KInt})
+			fr := bc.New()
+			if n := fr.GetType().Name; n != "zz-copy" {
+				problem = fmt.Sprintf("copy-new-follows-source: New() of a renamed copy reports type %q", n)
+				return
+			}
+			if _, ok := fr.Attrs()["zz-only-in-copy"]; !ok {
+				problem = "copy-new-follows-source: New() of a copy with one more attribute lacks it"
+				return
+			}
+			if _, ok := bt.New().Attrs()["zz-only-in-copy"]; ok {
+				problem = "editing the copy changed the source: New() of the source has the copy's attribute"
+				return
+			}
+		}
 		typ := buildType(&soft)
 		cp := typ.Copy()
 		if typeFingerprint(&typ) != typeFingerprint(&cp) && !(len(typ.Attrs) == 0 || len(typ.Rels) == 0) {
